@@ -31,7 +31,7 @@ func init() {
 		Title: "A search returns exactly the matching blobs, however it is planned",
 		Explanation: "Decided (structural necessary conditions, pkg/search/query.go). Every rule reads the EFFECTIVE BODY of the function it is about: the function plus, transitively (depth 5), the unexported same-package functions/methods and the function literals it calls statically; a parameter of such a helper stands for the caller's argument, a result of a followed call for what the helper returns (on the path taken), a field of a state struct that is stored exactly once in the module for the stored value (closure turned into a method). The planner and its predicates are read off composite acyclic paths (one path through the function and one through every helper entered on it; a helper entered a second time on one path, one with a loop, or another planner predicate stays an opaque call); the executor by dominating facts that include the facts at the calls leading to a helper, and by a path exploration that enters helpers at their calls and comes back through their returns, remembering which return was taken (so `err != nil` after a helper is decided when it returned nil or a never-nil error expression). Planner predicates are found by role (the recursive *Constraint methods the planner's effective body calls, plus the four named in the property), the executor by role (the caller of the planner), the planner's result type and its fields by role (the one string = name, the one bool = sorted flag, the one function = send). " +
 			"P-restrict — for every planner predicate (the *Constraint methods called from pickCandidateSource), on every acyclic CFG path to a return: a result that may restrict the candidates (true / possibly-valid ref / possibly non-empty slice) and that is obtained from a recursive call on an operand of c.Logical (by data flow, or for booleans by a positive branch on the recursive result) is returned only where the path establishes Op==\"and\", or Op==\"or\" together with restricting results from BOTH operands (and, for set/ref-valued predicates, a value built from both); under any other or no Op fact it is a violation; recursion on anything but c.Logical.A/B is undecided. " +
-			"P-leaf — for every restricting leaf path of a planner predicate (a path whose possibly restricting result is justified by the constraint's own fields, not by recursion): the fields the result relies on are reconstructed per constraint struct instance reached from the receiver (c, c.Permanode, c.File, c.Permanode.ValueMatches, ...): a field counts as tested when a branch on the path reads it AND taking the other edge leads to a different return statement or value (control dependence), or when the returned value is computed from it; small helpers that receive a constraint struct (e.g. a method on *StringConstraint) are followed path by path; what the path knows about each tested field (unset / set / == constant / bool method result) is kept. For each such struct the matcher is located from the code ((*Constraint).matcher() returns field matcherFn, whose only assignment is genMatcher's result; a sub-struct's matcher is the one method bound to / called on that field's value inside the parent's matcher family) and every OTHER field F of the struct that the matcher family reads (the matcher, the functions it hands the same struct to, its literals; blocks dead under the path's facts pruned) must be NARROWING: every branch whose outcome depends on F being set (a comparison of F with its zero value, a bool field, IsZero()/Valid() of it, a pure boolean helper such as hasValueConstraint whose result reacts monotonically to F — decided by exhaustive evaluation —, also through `x := a || b; if x` forwarding blocks and through a table of plain field getters resolved from the stores into the table's struct type) has a set side that, compared with the unset side, can only leave through panic / `return false` / a non-nil error (matcher builders: only calls the one literal that stores the added condition) and otherwise rejoins the unset side's code at one block with the same state (no phi at the join selects a different value for the two sides unless all its uses are again guarded by F's set-test or are dead because the fields whose tests the unset side passed are unset; no assignment to locals read later), or the unset side unconditionally reports a match; every other use of F's value lies inside a region dominated by the set-edge of such a test. A field whose set side returns a verdict of its own, changes a value the shared code uses afterwards (CaseInsensitive selecting the comparison table in stringMatches), or whose unset side performs a rejecting test the set side skips is MODAL: ignoring it in the predicate is a violation. A field used as a parameter outside its own guard, a constraint pointer that escapes, or a shape not covered is undecided. One recorded exception, re-checked structurally: matchesPermanodeTypes ignores PermanodeConstraint.At (only handed on as the time.Time argument of look-ups) because Corpus.permanodesSetByNodeType is add-only (no delete, fresh maps only, entries only set to true). genMatcher's combination of added conditions is checked as far as: allMustMatch.blobMatches leaves its loop early only with false/an error. " +
+			"P-leaf — for every restricting leaf path of a planner predicate (a path whose possibly restricting result is justified by the constraint's own fields, not by recursion): the fields the result relies on are reconstructed per constraint struct instance reached from the receiver (c, c.Permanode, c.File, c.Permanode.ValueMatches, ...): a field counts as tested when a branch on the path reads it AND taking the other edge leads to a different return statement or value (control dependence), or when the returned value is computed from it; small helpers that receive a constraint struct (e.g. a method on *StringConstraint) are followed path by path; what the path knows about each tested field (unset / set / == constant / bool method result) is kept. For each such struct the matcher is located from the code ((*Constraint).matcher() returns field matcherFn, whose only assignment is genMatcher's result; a sub-struct's matcher is the one method bound to / called on that field's value inside the parent's matcher family) and every OTHER field F of the struct that the matcher family reads (the matcher, the functions it hands the same struct to, its literals; blocks dead under the path's facts pruned) must be NARROWING: every branch whose outcome depends on F being set (a comparison of F with its zero value, a bool field, IsZero()/Valid() of it, a pure boolean helper such as hasValueConstraint whose result reacts monotonically to F — decided by exhaustive evaluation —, also through `x := a || b; if x` forwarding blocks and through a table of plain field getters resolved from the stores into the table's struct type) has a set side that, compared with the unset side, can only leave through panic / `return false` / a non-nil error (matcher builders: only performs ADDER calls — a call of a literal, of a declared function or method that may receive the accumulator's address, or of a bound method value, whose callee returns nothing and on every path stores each function-typed argument or hands it to another such callee, followed 4 levels deep — or grows the slice of conditions in place: the set side's slice is append(<the unset side's slice>, ...) or the result of a function all of whose returns are its slice parameter with something appended) and otherwise rejoins the unset side's code at one block with the same state (no phi at the join selects a different value for the two sides unless all its uses are again guarded by F's set-test or are dead because the fields whose tests the unset side passed are unset; no assignment to locals read later), or the unset side unconditionally reports a match; every other use of F's value lies inside a region dominated by the set-edge of such a test. A field whose set side returns a verdict of its own, changes a value the shared code uses afterwards (CaseInsensitive selecting the comparison table in stringMatches), or whose unset side performs a rejecting test the set side skips is MODAL: ignoring it in the predicate is a violation. A field used as a parameter outside its own guard, a constraint pointer that escapes, or a shape not covered is undecided. One recorded exception, re-checked structurally: matchesPermanodeTypes ignores PermanodeConstraint.At (only handed on as the time.Time argument of look-ups) because Corpus.permanodesSetByNodeType is add-only (no delete, fresh maps only, entries only set to true). A bound method value of the constraint itself (`c.f` handed on as a condition) makes f a member of the matcher family like a call of f would. The builder's combination of added conditions is checked as far as: the slice-of-matchers method whose bound value the builder's effective body (the builder, its literals, 3 levels of same-package callees, e.g. a result() method of the accumulator) returns for several conditions — today allMustMatch.blobMatches — leaves its loop early only with false/an error. " +
 			"P-nil-operand — a recursive call on operand B happens only under an Op fact for which checkValid guarantees B (and/or/xor), unless the predicate tolerates a nil receiver (every receiver dereference is under c!=nil). " +
 			"P-sorted — on every composite path of pickCandidateSource the returned source (reconstructed field by field from the field stores, whole-struct assignments, composite literals and constructor-helper results on the path) has a constant 'sorted'; sorted==true only with the enumerator that yields the requested order (EnumeratePermanodesLastModified under q.Sort==LastModifiedDesc, EnumeratePermanodesCreated(fn,true) under q.Sort==CreatedDesc; the bool may be a guard the path branched on). The enumerator is the call, in the send function's effective body, that receives send's callback. " +
 			"P-source-superset — every source is built from a classified enumerator and a restricted enumerator is entered only on paths where the predicate that justifies it returned a restricting result for q.Constraint (permanode enumerations under onlyMatchesPermanode; by-node-type with the very slice returned by matchesPermanodeTypes known non-empty; single blob with the very ref returned by matchesAtMostOneBlob known valid; camli blobs of type file under matchesFileByWholeRef; camli blobs of c.CamliType under AnyCamliType||CamliType!=\"\"); the executor compiles the matcher from the same constraint the planner looked at. " +
@@ -41,7 +41,7 @@ func init() {
 			"P-truncate — with an unsorted source, 0 < Limit < len(res.Blobs) and any sort but MapSort, every such path truncates res.Blobs by a bounded slice. " +
 			"P-nodup — every corpus enumerator a source is built from hands each blob to the callback at most once as far as its loop structure shows: the callback is invoked (directly or through one same-package helper) inside at most one loop, i.e. one pass over one collection; an invocation nested in two or more loops (several collections, or caller-supplied keys) must be guarded by a look-up in a map made in the enumerator's effective body (a 'seen' set; the guard may sit in the helper that invokes the callback, with the set handed in, or at a call leading to it), or be a recorded exception (one symbol, one reason). " +
 			"P-memo — every branch in pkg/search on a map membership test m[k] whose 'found' edge bypasses a matcher call (a call returning bool or (bool, error) that takes k as a blob.Ref and has the matchFn signature, or is a pkg/search function working on a *search such as RelationConstraint.match, or is a helper / local literal that itself makes such a call on the parameter k arrives in) on that same k is a skip guard; today: permanodesChecked in the claim callback of (*RelationConstraint).match. For a memo map local to one invocation, every value that can become a key (the key of each map update, followed through all stores of the variables that feed it, e.g. lastChecked; zero-value resets excluded) must be remembered only where its evaluation completed: the assignment is dominated by the success edge (error result known nil) of a matcher call on that same value, or every path from the assignment to an exit of the callback passes such an edge, except exits that return false from a callback whose enumerators (resolved through phi / bound-method thunks, here Corpus.ForeachClaim and ForeachClaimBack) provably never call it again after false (also when they hand the callback on, outside any loop, to one static helper that has this property), with the memo consulted nowhere else. A remembered value that no matcher call evaluates, a memo whose map or feeder variables escape, and a guard on a map shared beyond one invocation (could be a traversal visited-set, where marking first is correct) are undecided. Set membership tests keyed by blob refs that bypass no matcher call (dr.started: started-set of the describe traversal; resFromRule: membership filter) are listed as classified, not judged. " +
-			"NOT decided: the meaning of each leaf constraint and the base case of each leaf (e.g. that a PermanodeConstraint{Attr:camliNodeType, Value:T} with every other field unset only matches permanodes in the by-type set of T; that a predicate which does test a modal field draws the right conclusion from it); that a caller combines a sub-matcher's verdicts monotonically (the nmatch count in permanodeMatchesAttrVals) and that genMatcher's addCond bookkeeping retains every added condition; matcher semantics per constraint kind, that the enumerators really enumerate a superset in the claimed order, that a single collection holds each blob once, that a memoised verdict is still valid for the later occurrence of the key (the memo key captures everything the verdict depends on), memos kept in anything but a map local to one invocation (slices, sorted lists; a map held in a struct field or received as a parameter — e.g. the relation matcher's claim callback turned into a method — is reported undecided), the sort comparators and which slice is sorted, the Around window arithmetic, MapSort selection, any concrete world or query.",
+			"NOT decided: the meaning of each leaf constraint and the base case of each leaf (e.g. that a PermanodeConstraint{Attr:camliNodeType, Value:T} with every other field unset only matches permanodes in the by-type set of T; that a predicate which does test a modal field draws the right conclusion from it); that a caller combines a sub-matcher's verdicts monotonically (the nmatch count in permanodeMatchesAttrVals) and that the builder's adder retains every added condition beyond storing it on every path (e.g. that the first condition is moved into the slice when the second arrives) and that the final switch picks neverMatch / the single condition / the conjunction correctly; matcher semantics per constraint kind, that the enumerators really enumerate a superset in the claimed order, that a single collection holds each blob once, that a memoised verdict is still valid for the later occurrence of the key (the memo key captures everything the verdict depends on), memos kept in anything but a map local to one invocation (slices, sorted lists; a map held in a struct field or received as a parameter — e.g. the relation matcher's claim callback turned into a method — is reported undecided), a planner send function that is a bound method of a struct holding what a literal would capture (`src.send = typesSender{corpus, typs}.send`: the enumerator behind the bound-method wrapper is reported as unclassified — a false alarm on a legal closure-to-method refactoring of pickCandidateSource that is still open), the sort comparators and which slice is sorted, the Around window arithmetic, MapSort selection, any concrete world or query.",
 		RuleDocs: map[string]string{
 			"P-restrict":        "per planner predicate × Op label: contradiction rule over all acyclic paths — a may-restrict result derived from a recursive call needs Op==and, or Op==or with both operands restricting",
 			"P-leaf":            "per planner predicate × constraint struct its restricting leaf paths rely on × field of that struct the predicate does not test and the struct's matcher reads: the field is narrowing in the matcher (set side only rejects or rejoins with unchanged state; other uses guarded by its own set-test); modal ⇒ violation, unclassifiable ⇒ undecided; plus one row per struct (tested / unread fields), the all-must-match loop, and the add-only re-check of the At exception",
@@ -58,7 +58,7 @@ func init() {
 		},
 		Run:       runC08,
 		DesignRef: "DESIGN.md §4 C08",
-		Technique: "static analysis over effective bodies (caller plus statically called same-package helpers and literals, parameters/results/single-store state fields resolved across the call): exhaustive composite acyclic-path enumeration over go/ssa with per-path phi resolution and branch facts (contradiction rule on the planner predicates, constant propagation and table agreement on the planner), for the leaf cases a relational (two-run) region argument on the matchers' CFGs: control dependence of the restricting return on field tests, set/unset divergence regions with harmless-exit, single-rejoin and state-equality checks, dominance-guarded uses, exhaustive evaluation of pure boolean helpers, field-based resolution of getter tables, cross-call dominance facts and assumption-pruned interprocedural path exploration (helpers entered at their calls, left through their returns) in the executor; for skip-memos: key provenance through variable stores, success-edge dominance / must-pass-through of the matcher call, callback stop-protocol checked in the resolved enumerators",
+		Technique: "static analysis over effective bodies (caller plus statically called same-package helpers and literals, parameters/results/single-store state fields resolved across the call): exhaustive composite acyclic-path enumeration over go/ssa with per-path phi resolution and branch facts (contradiction rule on the planner predicates, constant propagation and table agreement on the planner), for the leaf cases a relational (two-run) region argument on the matchers' CFGs: control dependence of the restricting return on field tests, set/unset divergence regions with harmless-exit, single-rejoin and state-equality checks, adder summaries (every-path store of the function argument across literals / methods / bound method values) and grows-from relation on the builder's slice of conditions, dominance-guarded uses, exhaustive evaluation of pure boolean helpers, field-based resolution of getter tables, cross-call dominance facts and assumption-pruned interprocedural path exploration (helpers entered at their calls, left through their returns) in the executor; for skip-memos: key provenance through variable stores, success-edge dominance / must-pass-through of the matcher call, callback stop-protocol checked in the resolved enumerators",
 		LevelText: "Decides structural necessary conditions only: the planner predicates combine recursive results soundly for and/or/not/xor; a leaf case of a predicate ignores a field of the constraint only if that field can merely narrow what the matcher accepts (so the leaf is as sound for every constraint as it is for the one with all ignored fields unset); a source is flagged sorted only when its enumerator yields the requested order; every restricted source is guarded by the predicate that justifies it, on the same constraint the matcher is compiled from; results are appended only on a match; results are dropped early only for sorted sources; unsorted sources are post-sorted and truncated; the relation matcher's 'already checked' memo remembers a relative only after the matcher really ran on it; the cached orders the sorted sources enumerate are invalidated by every live write of their inputs. Does not decide matcher semantics, the base case of each leaf (all ignored fields unset), enumerator contents/order, comparators, or any concrete query.",
 	})
 }
@@ -4635,6 +4635,7 @@ type c08LeafAn struct {
 	cache    map[string]c08FieldRes
 	dyn      map[string]*c08DynRes
 	pure     map[*ssa.Function]int
+	adders   map[c08AdderKey]int
 }
 
 // ---- part 1: the predicate side
@@ -5160,11 +5161,42 @@ func (m *c08Member) scanRoot() {
 						}
 					case *ssa.Call:
 						m.scanRootCall(x, ai)
+					case *ssa.MakeClosure:
+						// a bound method value of the constraint (`c.f` used as a function
+						// value): the method receives the same struct, like a call would
+						t := c08BoundTarget(x.Fn.(*ssa.Function))
+						if t == nil || len(x.Bindings) != 1 || len(t.Blocks) == 0 || len(t.Params) == 0 || !InModule(t) {
+							m.escape = fmt.Sprintf("the constraint pointer is captured by %s", x.String())
+							break
+						}
+						known := false
+						for _, cs := range m.callees {
+							if cs.call == ssa.Instruction(x) {
+								known = true
+							}
+						}
+						if !known {
+							m.callees = append(m.callees, c08CalleeSite{x, m.an.member(t, t.Params[0])})
+						}
 					default:
 						m.escape = fmt.Sprintf("the constraint pointer flows into %T (%s)", in, in.String())
 					}
 				}
 			}
+		}
+	}
+}
+
+// markCompile: m is a part of a matcher builder that returns nothing; so are the
+// helpers without results it hands the constraint on to.
+func (m *c08Member) markCompile(depth int) {
+	if m.compile || depth > c08MaxDepth {
+		return
+	}
+	m.compile = true
+	for _, cs := range m.callees {
+		if cs.mem.fn.Signature.Results().Len() == 0 {
+			cs.mem.markCompile(depth + 1)
 		}
 	}
 }
@@ -5194,6 +5226,11 @@ func (m *c08Member) scanRootCall(c *ssa.Call, operandIdx int) {
 			return
 		}
 		sub := m.an.member(f, f.Params[argIdx])
+		if m.compile && f.Signature.Results().Len() == 0 {
+			// a part of a matcher builder split off into a helper that returns
+			// nothing: it can only contribute by adding conditions
+			sub.markCompile(0)
+		}
 		for _, cs := range m.callees {
 			if cs.call == ssa.Instruction(c) {
 				return
@@ -6389,30 +6426,126 @@ func c08RefBlocks(v ssa.Value, out map[*ssa.BasicBlock]bool, depth int) (escapes
 	return escapes
 }
 
-// isAdder: a literal `func(fn F)` of a matcher builder that only stores its
-// argument (into captured variables), on every path.
-func (an *c08LeafAn) isAdder(g *ssa.Function) bool {
-	if len(g.Params) != 1 || g.Signature.Results().Len() != 0 {
+// ---- adders: how a matcher builder accumulates its conditions
+//
+// A matcher builder adds one condition per set field through an ADDER. Which
+// syntactic form the adder has is irrelevant: a function literal capturing the
+// builder's locals, a method of an accumulator struct (called directly or through a
+// bound method value), a package-level function that receives the accumulator's
+// address, or any of these calling another one. What makes a call an adder
+// call is what happens to the function-typed argument: on EVERY path through the
+// callee it is stored (into a variable, field or slice element) or handed on
+// to a callee of which the same holds, and it is used for nothing else.
+
+const c08AdderDepth = 4
+
+type c08AdderKey struct {
+	fn  *ssa.Function
+	idx int
+}
+
+// c08CallTarget: the function a call enters, its Params aligned with
+// Call.Args: the static callee (receiver first), or the literal / bound-method
+// wrapper the called closure value was made from.
+func c08CallTarget(cc *ssa.CallCommon) *ssa.Function {
+	if cc.IsInvoke() {
+		return nil
+	}
+	var f *ssa.Function
+	switch v := originValue(cc.Value).(type) {
+	case *ssa.Function:
+		f = v
+	case *ssa.MakeClosure:
+		f, _ = v.Fn.(*ssa.Function)
+	}
+	if f == nil {
+		f = cc.StaticCallee()
+	}
+	if f == nil || len(f.Blocks) == 0 || len(f.Params) != len(cc.Args) {
+		return nil
+	}
+	return f
+}
+
+// adderParam: parameter idx of g is added (see above) on every path through g.
+func (an *c08LeafAn) adderParam(g *ssa.Function, idx, depth int) bool {
+	if an.adders == nil {
+		an.adders = map[c08AdderKey]int{}
+	}
+	key := c08AdderKey{g, idx}
+	if v, ok := an.adders[key]; ok {
+		return v == 1 // 2: in progress (recursion) or refuted
+	}
+	an.adders[key] = 2
+	if an.adderParam1(g, idx, depth) {
+		an.adders[key] = 1
+		return true
+	}
+	return false
+}
+
+func (an *c08LeafAn) adderParam1(g *ssa.Function, idx, depth int) bool {
+	if depth > c08AdderDepth || len(g.Blocks) == 0 || idx >= len(g.Params) || g.Signature.Results().Len() != 0 {
 		return false
 	}
-	if _, ok := g.Params[0].Type().Underlying().(*types.Signature); !ok {
+	prm := g.Params[idx]
+	if _, ok := prm.Type().Underlying().(*types.Signature); !ok {
 		return false
 	}
-	refs := g.Params[0].Referrers()
-	if refs == nil {
-		return false
-	}
-	stores := map[*ssa.BasicBlock]bool{}
-	for _, r := range *refs {
-		switch x := r.(type) {
-		case *ssa.DebugRef:
-		case *ssa.Store:
-			if x.Val != ssa.Value(g.Params[0]) {
+	marks := map[*ssa.BasicBlock]bool{}
+	vals := []ssa.Value{prm}
+	for i := 0; i < len(vals); i++ {
+		v := vals[i]
+		if v.Referrers() == nil {
+			continue
+		}
+		for _, r := range *v.Referrers() {
+			switch x := r.(type) {
+			case *ssa.DebugRef:
+			case *ssa.ChangeType:
+				vals = append(vals, x)
+			case *ssa.Store:
+				if x.Val != v {
+					return false
+				}
+				if al, isAl := x.Addr.(*ssa.Alloc); isAl && al.Parent() == g {
+					// a local copy of the parameter: not an addition yet; follow its loads
+					if !plainVariable(al) || len(storesTo(al)) != 1 || al.Referrers() == nil {
+						return false
+					}
+					for _, ar := range *al.Referrers() {
+						switch y := ar.(type) {
+						case *ssa.Store, *ssa.DebugRef:
+						case *ssa.UnOp:
+							vals = append(vals, y)
+						default:
+							return false // e.g. captured by a nested literal
+						}
+					}
+					continue
+				}
+				marks[x.Block()] = true
+			case *ssa.Call:
+				t := c08CallTarget(&x.Call)
+				if t == nil || t.Signature.Results().Len() != 0 {
+					return false
+				}
+				found := false
+				for ai, a := range x.Call.Args {
+					if a == v {
+						if !an.adderParam(t, ai, depth+1) {
+							return false
+						}
+						found = true
+					}
+				}
+				if !found {
+					return false // the parameter itself is called
+				}
+				marks[x.Block()] = true
+			default:
 				return false
 			}
-			stores[x.Block()] = true
-		default:
-			return false
 		}
 	}
 	paths, why := c08Paths(g, 200)
@@ -6422,15 +6555,124 @@ func (an *c08LeafAn) isAdder(g *ssa.Function) bool {
 	for _, pth := range paths {
 		has := false
 		for _, b := range pth {
-			if stores[b] {
+			if marks[b] {
 				has = true
+				break
 			}
 		}
 		if !has {
 			return false
 		}
 	}
-	return true
+	return len(paths) > 0
+}
+
+// adderCall: the call adds each of its function-typed arguments (at least
+// one) to the builder's conditions and returns nothing.
+func (an *c08LeafAn) adderCall(c *ssa.Call) bool {
+	t := c08CallTarget(&c.Call)
+	if t == nil || t.Signature.Results().Len() != 0 {
+		return false
+	}
+	n := 0
+	for ai, a := range c.Call.Args {
+		if _, isSig := a.Type().Underlying().(*types.Signature); !isSig {
+			continue
+		}
+		if !an.adderParam(t, ai, 0) {
+			return false
+		}
+		n++
+	}
+	return n > 0
+}
+
+// ---- accumulators without an adder: the slice of conditions grown in place
+//
+// When the adder is inlined (`conds = append(conds, x)`) or returns the grown
+// slice (`conds = withCond(conds, x)`), the set side of a field's branch differs
+// from the unset side in the VALUE of the slice of conditions. That is still only
+// an addition when the set side's slice GROWS FROM the unset side's: it is the
+// same value, append(<grows from it>, ...), a phi of such values, or the result of
+// a function with a body all of whose returns grow from the parameter that
+// receives it.
+
+func c08IsCondSlice(t types.Type) bool {
+	sl, ok := t.Underlying().(*types.Slice)
+	if !ok {
+		return false
+	}
+	_, isSig := sl.Elem().Underlying().(*types.Signature)
+	return isSig
+}
+
+func c08Grows(v ssa.Value, isBase func(ssa.Value) bool, depth int) bool {
+	ok, _ := c08GrowsS(v, isBase, depth)
+	return ok
+}
+
+// c08GrowsS: strict = at least one append on every way from the base to v.
+func c08GrowsS(v ssa.Value, isBase func(ssa.Value) bool, depth int) (ok, strict bool) {
+	if isBase(v) {
+		return true, false
+	}
+	if depth > 6 {
+		return false, false
+	}
+	switch x := v.(type) {
+	case *ssa.ChangeType:
+		return c08GrowsS(x.X, isBase, depth+1)
+	case *ssa.Phi:
+		strict = true
+		for _, e := range x.Edges {
+			if e == ssa.Value(x) {
+				continue
+			}
+			o, st := c08GrowsS(e, isBase, depth+1)
+			if !o {
+				return false, false
+			}
+			strict = strict && st
+		}
+		return len(x.Edges) > 0, strict
+	case *ssa.Call:
+		if bi, isB := x.Call.Value.(*ssa.Builtin); isB {
+			if bi.Name() == "append" && len(x.Call.Args) == 2 {
+				o, _ := c08GrowsS(x.Call.Args[0], isBase, depth+1)
+				return o, o
+			}
+			return false, false
+		}
+		t := c08CallTarget(&x.Call)
+		if t == nil || t.Signature.Results().Len() != 1 {
+			return false, false
+		}
+		for ai, a := range x.Call.Args {
+			if !c08IsCondSlice(a.Type()) || !c08Grows(a, isBase, depth+1) {
+				continue
+			}
+			// the callee is an adder in functional form: every return hands back
+			// the slice it was given with something appended
+			prm := t.Params[ai]
+			all := true
+			n := 0
+			for _, ri := range Returns(t) {
+				n++
+				if len(ri.Results) != 1 {
+					all = false
+					continue
+				}
+				o, st := c08GrowsS(ri.Results[0], func(o ssa.Value) bool { return originValue(o) == ssa.Value(prm) }, depth+2)
+				if !o || !st {
+					all = false
+				}
+			}
+			if all && n > 0 {
+				return true, true
+			}
+		}
+	}
+	return false, false
 }
 
 type c08RegionRes struct {
@@ -6577,12 +6819,22 @@ func (cx *c08FieldCx) region(F string, d c08Div) c08RegionRes {
 					return und("the %s side starts a goroutine or defers a call", sideName)
 				case *ssa.Call:
 					callee := originValue(x.Call.Value)
-					if mc, ok := callee.(*ssa.MakeClosure); ok && !x.Call.IsInvoke() {
-						if !(cx.m.compile && cx.m.an.isAdder(mc.Fn.(*ssa.Function))) {
-							return und("the %s side calls the local literal %s, which may assign variables of %s", sideName, mc.Fn.Name(), cx.m.fn.Name())
+					// in a matcher builder, a call that only adds a condition (whatever form the adder has)
+					adder := cx.m.compile && cx.m.an.adderCall(x)
+					if mc, ok := callee.(*ssa.MakeClosure); ok && !x.Call.IsInvoke() && !adder {
+						return und("the %s side calls the local closure %s, which may assign variables of %s (it is not an adder: a function that, on every path, only stores its function argument or hands it to such a function)", sideName, mc.Fn.Name(), cx.m.fn.Name())
+					}
+					if cx.m.compile && !adder && x.Call.Signature().Results().Len() == 0 {
+						for _, a := range x.Call.Args {
+							if _, isSig := a.Type().Underlying().(*types.Signature); isSig {
+								return und("the %s side of a matcher builder hands a function to %s, which is not an adder (a function that, on every path, only stores its function argument or hands it to such a function)", sideName, x.Call.String())
+							}
 						}
 					}
 					for _, a := range x.Call.Args {
+						if adder {
+							break // the accumulator's address is what an adder is given
+						}
 						if al, ok := c08AddrBase(a).(*ssa.Alloc); ok && !reg[al.Block()] && al.Parent() == cx.m.fn {
 							return und("the %s side passes the address of local variable %s to a call", sideName, al.Comment)
 						}
@@ -6592,7 +6844,11 @@ func (cx *c08FieldCx) region(F string, d c08Div) c08RegionRes {
 					if cx.m.isRoot(base) {
 						return und("the %s side assigns a field of the constraint", sideName)
 					}
-					if al, ok := base.(*ssa.Alloc); ok {
+					grown := cx.m.compile && c08IsCondSlice(x.Val.Type()) && c08Grows(x.Val, func(o ssa.Value) bool {
+						ld, isLd := o.(*ssa.UnOp)
+						return isLd && ld.Op == token.MUL && reg[ld.Block()] && c08SameAddr(ld.X, x.Addr)
+					}, 0)
+					if al, ok := base.(*ssa.Alloc); ok && !grown {
 						blocks := map[*ssa.BasicBlock]bool{}
 						if c08RefBlocks(al, blocks, 0) {
 							return und("the %s side assigns variable %s, which is captured by a literal", sideName, al.Comment)
@@ -6671,6 +6927,28 @@ func (cx *c08FieldCx) region(F string, d c08Div) c08RegionRes {
 			}
 			if len(vals) < 2 || ph.Referrers() == nil {
 				continue
+			}
+			if cx.m.compile && c08IsCondSlice(ph.Type()) {
+				// a matcher builder's slice of conditions: the set side only grows the unset side's slice
+				var uvals []ssa.Value
+				for i, p := range J.Preds {
+					if cx.live[p] && !TR[p] && (UR[p] || chain[p] || p == d.B) {
+						uvals = append(uvals, ph.Edges[i])
+					}
+				}
+				grows := len(uvals) > 0
+				for i, p := range J.Preds {
+					if cx.live[p] && TR[p] {
+						for _, u := range uvals {
+							if !c08Grows(ph.Edges[i], func(o ssa.Value) bool { return o == u }, 0) {
+								grows = false
+							}
+						}
+					}
+				}
+				if grows {
+					continue
+				}
 			}
 			for _, r := range *ph.Referrers() {
 				if _, isDbg := r.(*ssa.DebugRef); isDbg {
@@ -6990,23 +7268,59 @@ func c08AddOnlySet(p *Program) (ok bool, detail string, site token.Pos) {
 // match only after its loop over the slice: every return inside a loop cannot
 // report a match.
 func c08ConjunctiveSlice(p *Program, r *Reporter, gen *c08Member) {
-	var meth *ssa.Function
-	for _, b := range gen.fn.Blocks {
-		for _, in := range b.Instrs {
-			if mc, ok := in.(*ssa.MakeClosure); ok {
-				if t := c08BoundTarget(mc.Fn.(*ssa.Function)); t != nil && len(mc.Bindings) == 1 {
-					if _, isSlice := mc.Bindings[0].Type().Underlying().(*types.Slice); isSlice {
-						meth = t
+	// the builder's effective body: itself, its literals and (three levels of) the
+	// same-package functions it calls statically — the final combination may
+	// live in an extracted helper or a method of the accumulator
+	var meths []*ssa.Function
+	seen := map[*ssa.Function]bool{}
+	var scan func(f *ssa.Function, depth int)
+	scan = func(f *ssa.Function, depth int) {
+		if f == nil || seen[f] || len(f.Blocks) == 0 {
+			return
+		}
+		seen[f] = true
+		for _, g := range c08AllFuncs(f) {
+			for _, b := range g.Blocks {
+				for _, in := range b.Instrs {
+					switch x := in.(type) {
+					case *ssa.MakeClosure:
+						if t := c08BoundTarget(x.Fn.(*ssa.Function)); t != nil && len(x.Bindings) == 1 {
+							if c08IsCondSlice(x.Bindings[0].Type()) && !seen[t] {
+								meths = append(meths, t)
+							}
+						}
+					case ssa.CallInstruction:
+						if depth < 3 {
+							if t := c08CallTarget(x.Common()); t != nil && (t.Pkg == gen.fn.Pkg || t.Pkg == nil) {
+								scan(t, depth+1)
+							}
+						}
 					}
 				}
 			}
 		}
 	}
+	scan(gen.fn, 0)
 	key := FuncKey(gen.fn) + "#conjunction"
-	if meth == nil {
+	sort.Slice(meths, func(i, j int) bool { return FuncKey(meths[i]) < FuncKey(meths[j]) })
+	if len(meths) == 0 {
 		r.OKTable("P-leaf", key, p.Pos(gen.fn.Pos()), "the builder does not combine conditions through a slice-of-matchers method; how it combines them is not decided")
 		return
 	}
+	var prev *ssa.Function
+	for i, meth := range meths {
+		if meth == prev {
+			continue
+		}
+		prev = meth
+		if i > 0 {
+			key = FuncKey(gen.fn) + "#conjunction/" + meth.Name()
+		}
+		c08ConjunctiveMethod(p, r, gen, meth, key)
+	}
+}
+
+func c08ConjunctiveMethod(p *Program, r *Reporter, gen *c08Member, meth *ssa.Function, key string) {
 	m := gen.an.member(meth, meth.Params[0])
 	cx := m.cx(nil)
 	var bad []string
